@@ -23,14 +23,14 @@ RULE = (
     "Invocation = 1..4 files (27 styles by extension, unrecognised extensions, uncommentable types, binaries) x one failure reason in {holder contains "
     "the style's multi-line terminator (with --multi-line or a multi-only style), template dropping licences / copyright / both, existing header with an "
     "unparseable expression, unrecognised extension without fallback, --single-line / --multi-line unsupported by a named file, mutually exclusive "
-    "options, missing template, no reason} x {none, --force-dot-license, --fallback-dot-license, --skip-unrecognised, --skip-existing} x forced --style x "
+    "options, missing template, a holder that cannot be encoded as UTF-8, no reason}; a FILE.license that is a directory x {none, --force-dot-license, --fallback-dot-license, --skip-unrecognised, --skip-existing} x forced --style x "
     "argument order.  Which files fail is known by construction.  Oracle: snapshot delta touches only succeeding files (or their .license), failing "
     "files and siblings untouched / not created, succeeding files carry the requested tags, exit status 1 iff a file failed else 0; usage error => exit "
     "2 and no change at all.  Non-trivial = a failing and a succeeding file in one invocation, or a failing file with a .license option; distinct by case."
 )
 ASSUMPTIONS = ["failure reasons are the anticipated ones of the statement; undecodable input and other crashes are C16's subject"]
 
-REASONS = ["terminator", "terminator", "droplic", "dropcop", "dropboth", "cdroplic", "cdropcop", "cdropboth", "bad-existing", "unrecognised", "line-unsupported", "mutex", "missing-template", "none"]
+REASONS = ["unencodable", "terminator", "terminator", "droplic", "dropcop", "dropboth", "cdroplic", "cdropcop", "cdropboth", "bad-existing", "unrecognised", "line-unsupported", "mutex", "missing-template", "none"]
 
 
 @st.composite
@@ -50,7 +50,9 @@ def case(draw):
             style = draw(st.sampled_from(["python", "c", "html"]))
             name = f"f{i}{S.EXT_FOR_STYLE[style]}"
         files.append({"name": name, "style": style, "binary": kind == "binary",
-                      "existing": draw(st.sampled_from([None, None, "good", "bad"])), "dotlicense_exists": draw(st.integers(0, 4)) == 0})
+                      "existing": draw(st.sampled_from([None, None, "good", "bad"])), "dotlicense_exists": draw(st.integers(0, 4)) == 0,
+                      # FILE.license is a directory: the file cannot be annotated, the others can
+                      "dotlicense_dir": kind == "style" and draw(st.integers(0, 9)) == 0})
     reason = draw(st.sampled_from(REASONS))
     return {"files": files, "reason": reason, "dot": draw(st.sampled_from([None, None, "force", "fallback", "skip"])),
             "multi": draw(st.booleans()), "forced_style": draw(st.one_of(st.none(), st.none(), st.sampled_from(sorted(S.STYLES)))),
@@ -86,6 +88,9 @@ def check(ctx, c):
                     tfiles[f["name"]] = P.header_text(st_, ["SPDX-FileCopyrightText: 2001 Old Holder"], [], body=body, extra_invalid="ISC AND")
                 else:
                     tfiles[f["name"]] = body
+            if f.get("dotlicense_dir"):
+                f["dotlicense_exists"] = False
+                tfiles[f["name"] + ".license"] = ("dir",)
             if f["dotlicense_exists"]:
                 tfiles[f["name"] + ".license"] = "SPDX-FileCopyrightText: 2002 Sibling Holder\n"
         tree.write_tree(root, tfiles)
@@ -98,6 +103,8 @@ def check(ctx, c):
             terms = [t for t in terms if t]
             term = terms[0] if terms else "*/"
             holder = f"Jane {term} Doe"
+        if reason == "unencodable":
+            holder = "Jane \udcff Doe"  # what a command-line byte that is not valid UTF-8 becomes
         args = ["annotate", "--copyright", holder, "--license", "MIT", "--year", "2020"]
         multi_flag = c["multi"] and reason in ("terminator", "none", "bad-existing")
         if multi_flag:
@@ -154,6 +161,13 @@ def check(ctx, c):
         labels = [f"reason:{reason}", f"dot:{dot}", f"forced:{bool(forced)}", f"nfiles:{len(files)}", f"exit:{res.code}", f"usage-expected:{usage}"]
         if res.crash is not None:
             ctx.count(case_d, labels=labels + ["crash-left-to-C16"])
+            # whatever the traceback (C16's subject): no file may be left damaged, i.e. changed without carrying the complete new header
+            for pth in sorted(delta):
+                data = after.get(pth)
+                if pth in before and (not isinstance(data, bytes) or b"SPDX-License-Identifier: MIT" not in data):
+                    ctx.fail(case_d, f"annotate ended in {type(res.crash).__name__} and left {pth} damaged: before {before[pth][:80]!r}, after {data if data is None else data[:80]!r}")
+            if reason == "unencodable" or any(f.get("dotlicense_dir") for f in files):
+                ctx.fail(case_d, f"annotate ended in {type(res.crash).__name__}: {res.crash} — the file that cannot be annotated has to be reported (exit 1) and the others still processed")
             return
         if usage:
             ctx.count(case_d, nontrivial=True, labels=labels, sample={"args": args, "exit": res.code})
@@ -186,7 +200,7 @@ def check(ctx, c):
                 skipped.append(f)
                 continue
             fails = False
-            if reason in AN.DROPPING:
+            if reason in AN.DROPPING or reason == "unencodable" or f.get("dotlicense_dir"):
                 fails = True
             if reason == "terminator" and stl and S.has_multi(stl) and term and term in holder:
                 uses_multi = multi_flag or not S.has_single(stl)
